@@ -1259,6 +1259,16 @@ def r04f(an, rep, rule="R04.W", roundtrip=False):
                 why = f"the LOAD_CONST instruction is decoded as {loaded!r}"
             elif repr(loaded[0].get("constant")) != repr(wantc) or type(loaded[0].get("constant")) is not type(wantc):
                 why = f"LOAD_CONST loads {ascii(wantc)} in CPython, the decoded operand is {ascii(loaded[0].get('constant'))}"
+            if not why:
+                # a field declared `bool` holds a bool: the JSON form writes the value as it is and the published schema says boolean
+                # (a flag bit kept as `word & BIT` is 16, equal to nothing the schema or == True accepts)
+                cd_cls = next((m_.classes["CodeData"] for m_ in an.prog.modules.values() if "CodeData" in m_.classes), None)
+                if cd_cls is None:
+                    raise AnalysisError("class CodeData not found")
+                for fld in cd_cls.fields:
+                    ann = getattr(fld, "annotation", None)
+                    if isinstance(ann, ast.Name) and ann.id == "bool" and fld.name in got and type(got.get(fld.name)) is not bool:
+                        why = f"field {fld.name} is declared bool (boolean in the JSON schema) and holds {got.get(fld.name)!r} of type {type(got.get(fld.name)).__name__}"
             if why:
                 pass
             elif exp_args == "nofunc":
